@@ -49,6 +49,23 @@ pub const ROOTS: &[Root] = &[
     Root { name: "italian", fen: "r1bqk1nr/pppp1ppp/2n5/2b1p3/2B1P3/5N2/PPPP1PPP/RNBQK2R w KQkq - 4 4", class: 2 },
     Root { name: "sicilian-b", fen: "rnbqkbnr/pp1ppppp/8/2p5/4P3/5N2/PPPP1PPP/RNBQKB1R b KQkq - 1 2", class: 2 },
     Root { name: "knights-tour", fen: "4k3/8/8/8/8/8/8/N3K2N w - - 0 1", class: 0 },
+    // tactical middlegames and rule corner cases that the repository's own perft tests do not visit
+    Root { name: "wac1", fen: "2rr3k/pp3pp1/1nnqbN1p/3pN3/2pP4/2P3Q1/PPB4P/R4RK1 w - - 0 1", class: 2 },
+    Root { name: "wac2", fen: "8/7p/5k2/5p2/p1p2P2/Pr1pPK2/1P1R3P/8 b - - 0 1", class: 1 },
+    Root { name: "wac3", fen: "5rk1/1ppb3p/p1pb4/6q1/3P1p1r/2P1R2P/PP1BQ1P1/5RKN w - - 0 1", class: 2 },
+    Root { name: "wac4", fen: "r1bq2rk/pp3pbp/2p1p1pQ/7P/3P4/2PB1N2/PP3PPR/2KR4 w - - 0 1", class: 2 },
+    Root { name: "wac5", fen: "5k2/6pp/p1qN4/1p1p4/3P4/2PKP2Q/PP3r2/3R4 b - - 0 1", class: 2 },
+    Root { name: "bk1", fen: "1k1r4/pp1b1R2/3q2pp/4p3/2B5/4Q3/PPP2B2/2K5 b - - 0 1", class: 2 },
+    Root { name: "ep-rank-pin", fen: "8/8/8/KPp4r/8/8/8/4k3 w - c6 0 1", class: 0 },
+    Root { name: "ep-diag-pin", fen: "4k3/6b1/8/3pP3/8/2K5/8/8 w - d6 0 1", class: 0 },
+    Root { name: "castle-in-check", fen: "r3k2r/8/8/8/4q3/8/8/R3K2R w KQkq - 0 1", class: 1 },
+    Root { name: "castle-through-attack", fen: "r3k2r/8/8/8/8/5q2/8/R3K2R w KQkq - 0 1", class: 1 },
+    Root { name: "castle-b1-attacked", fen: "r3k2r/8/8/8/8/8/1q6/R3K2R w KQkq - 0 1", class: 1 },
+    Root { name: "pins-everywhere", fen: "4k3/8/4r3/8/1b2q3/8/3NBN2/r2QK2R w K - 0 1", class: 1 },
+    Root { name: "double-check", fen: "4r2k/8/8/8/8/5n2/8/3QK3 w - - 0 1", class: 0 },
+    Root { name: "promo-pinned", fen: "3rk3/2P1P3/8/8/8/8/8/3RK3 w - - 0 1", class: 0 },
+    Root { name: "underpromo-mate", fen: "8/5P1k/5K2/8/8/8/8/8 w - - 0 1", class: 0 },
+    Root { name: "rook-capture-rights", fen: "r3k2r/1B4B1/8/8/8/8/1b4b1/R3K2R w KQkq - 0 1", class: 1 },
     // castling rights with the enemy king next to the castling path (only a king attacks the path)
     Root { name: "castle-near-king-ws", fen: "3r4/8/8/8/8/8/6k1/4K2R w K - 0 1", class: 0 },
     Root { name: "castle-near-king-wl", fen: "6r1/8/8/8/8/8/2k5/R3K3 w Q - 0 1", class: 0 },
